@@ -201,6 +201,14 @@ def enum_values_compiled(header, names):
     os.makedirs(CACHE, exist_ok=True)
     key = hashlib.sha256((headers_sha() + header + "|" + ",".join(names)).encode()).hexdigest()[:32]
     path = os.path.join(CACHE, "enum_" + key + ".json")
+    with _lock:
+        kl = _keylocks.setdefault("enum" + key, threading.Lock())
+    with kl:
+        return _enum_locked(header, names, path)
+
+
+def _enum_locked(header, names, path):
+    import tempfile, shutil
     if os.path.exists(path):
         with open(path) as f:
             return json.load(f)
@@ -223,8 +231,10 @@ def enum_values_compiled(header, names):
             vals[a] = int(b)
     finally:
         shutil.rmtree(d, ignore_errors=True)
-    with open(path, "w") as f:
+    tmp = path + ".%d.%d.tmp" % (os.getpid(), threading.get_ident())
+    with open(tmp, "w") as f:
         json.dump(vals, f)
+    os.replace(tmp, path)
     return vals
 
 
@@ -249,8 +259,10 @@ def dump_text(text, filt, tag="synthetic"):
         docs = _parse_docs(p.stdout.decode())
     finally:
         shutil.rmtree(d, ignore_errors=True)
-    with open(path, "w") as f:
+    tmp = path + ".%d.%d.tmp" % (os.getpid(), threading.get_ident())
+    with open(tmp, "w") as f:
         json.dump(docs, f)
+    os.replace(tmp, path)
     return docs
 
 
